@@ -18,8 +18,10 @@ raster object does. Mirrors, as the code is now:
 * `Raster.computeAggregates()` : for the bands in insertion order, `names = name.split('#')`, `names[1]`
   (`IndexError` for a name without `#`), `self.collectionValuesGrid` (`AttributeError` before the first collection),
   `[afname]` (`KeyError` for a band added after the collection with a new feature), `eval(aggregate + '(tarray)')`
-  (`NameError` for an unknown operator); every cell of the band is overwritten, a NaN result by the module constant
-  `NO_DATA_VALUE` — **not** by the raster's own `__noDataValue`. All four errors arise at the first cell of a band
+  (`NameError` for an unknown operator); every cell of the band is overwritten, a NaN result by the raster's CURRENT
+  no-data value `self.getNoDataValue()` (since the `fix:` commit 279f7b2; before, by the module constant
+  `NO_DATA_VALUE` whatever the raster's own value): the constructor argument `novalue` (default `NO_DATA_VALUE`), or
+  what `setNoDataValue` put there since — `None` included, which is then what those cells hold. All four errors arise at the first cell of a band
   (a raster has at least one cell), so a band is either rewritten completely or left as it was, and the bands
   before the failing one have been rewritten;
 * `Track.hasAnalyticalFeature` / `getObsAnalyticalFeature` for the names used: `uid` (the track's uid, tested
@@ -50,22 +52,23 @@ structure Trk (α : Type) where
   feats : List (String × List (Option α))
 
 /-- a band: name parts, and the grid — `none` as created by `addAFMap` without grid (every cell an empty list),
-    `some` numbers once given explicitly or written by `computeAggregates` -/
+    `some` entries once given explicitly or written by `computeAggregates`; an entry `none` is Python's `None`
+    (written for a cell without value when the raster's no-data value is `None`; a NaN is never written) -/
 structure Band (α : Type) where
   name : List String
-  grid : Option (List (List α))
+  grid : Option (List (List (Option α)))
 
 /-- `collectionValuesGrid`: feature → per-cell value lists, in insertion order -/
 abbrev Vals (α : Type) := List (String × Cells (Option α))
 
 structure RState (α : Type) where
   g : Grid α
-  noData : α
+  noData : Option α
   bands : List (Band α)
   values : Option (Vals α)
 
 /-- `Raster.__init__` -/
-def initState (g : Grid α) (noData : α) : RState α := { g := g, noData := noData, bands := [], values := none }
+def initState (g : Grid α) (noData : Option α) : RState α := { g := g, noData := noData, bands := [], values := none }
 
 def opOf : String → Option Op
   | "co_count" => some .count
@@ -80,7 +83,7 @@ def opOf : String → Option Op
 def afsOf (bands : List (Band α)) : List String := (bands.map (fun b => b.name.headD "")).eraseDups
 
 /-- `Raster.addAFMap(name, grid)` -/
-def addBand (s : RState α) (name : List String) (init : Option (List (List α))) : RState α × Option Err :=
+def addBand (s : RState α) (name : List String) (init : Option (List (List (Option α)))) : RState α × Option Err :=
   if name = [""] then (s, some .wrongArg)
   else if s.bands.any (fun b => b.name == name) then (s, some .wrongArg)
   else match init with
@@ -152,8 +155,17 @@ def addColl (floor : α → Int) (s : RState α) (afOrder : List String) (tracks
     if tracks.any (fun t => afOrder.any (fun af => (featVals t af).isNone)) then ({ s with values := some V0 }, some .afError)
     else let r := addTracks floor s.g tracks V0; ({ s with values := some r.1 }, r.2)
 
-/-- `computeAggregates` for one band; `wr` is the module constant `NO_DATA_VALUE` -/
-def computeBand (wr : α) (V : Option (Vals α)) (b : Band α) : Band α × Option Err :=
+/-- `if isnan(sumval): … = self.getNoDataValue() else: … = sumval` -/
+def fillNaN (nd : Option α) : Option α → Option α
+  | none => nd
+  | some a => some a
+
+/-- `computeAggregates` for one map: a NaN result is stored as the raster's no-data value `nd` (`none` = `None`) -/
+def aggregatesN (nd : Option α) (op : Op) (c : Cells (Option α)) : List (List (Option α)) :=
+  c.map (fun row => row.map (fun cell => fillNaN nd (cellValue op cell)))
+
+/-- `computeAggregates` for one band; `nd` is the raster's current no-data value `self.getNoDataValue()` -/
+def computeBand (nd : Option α) (V : Option (Vals α)) (b : Band α) : Band α × Option Err :=
   match b.name with
   | af :: opn :: _ =>
     match V with
@@ -164,39 +176,39 @@ def computeBand (wr : α) (V : Option (Vals α)) (b : Band α) : Band α × Opti
       | some c =>
         match opOf opn with
         | none => (b, some .name)
-        | some op => ({ b with grid := some (aggregates wr op c) }, none)
+        | some op => ({ b with grid := some (aggregatesN nd op c) }, none)
   | _ => (b, some .index)
 
-def computeAll (wr : α) (V : Option (Vals α)) : List (Band α) → List (Band α) × Option Err
+def computeAll (nd : Option α) (V : Option (Vals α)) : List (Band α) → List (Band α) × Option Err
   | [] => ([], none)
   | b :: rest =>
-    match computeBand wr V b with
+    match computeBand nd V b with
     | (b', some x) => (b' :: rest, some x)
-    | (b', none) => let r := computeAll wr V rest; (b' :: r.1, r.2)
+    | (b', none) => let r := computeAll nd V rest; (b' :: r.1, r.2)
 
 /-- one call on the raster -/
 inductive Cmd (α : Type)
-  | band (name : List String) (init : Option (List (List α)))
+  | band (name : List String) (init : Option (List (List (Option α))))
   | add (afOrder : List String) (tracks : List (Trk α))
   | compute
-  | setNoData (v : α)
+  | setNoData (v : Option α)
 
 def Cmd.isAdd : Cmd α → Bool
   | .add _ _ => true
   | _ => false
 
-def step (floor : α → Int) (wr : α) (s : RState α) : Cmd α → RState α × Option Err
+def step (floor : α → Int) (s : RState α) : Cmd α → RState α × Option Err
   | .band name init => addBand s name init
   | .add afOrder tracks => addColl floor s afOrder tracks
-  | .compute => let r := computeAll wr s.values s.bands; ({ s with bands := r.1 }, r.2)
+  | .compute => let r := computeAll s.noData s.values s.bands; ({ s with bands := r.1 }, r.2)
   | .setNoData v => ({ s with noData := v }, none)
 
 /-- a sequence of calls, each one caught: final state and the outcome of every call -/
-def run (floor : α → Int) (wr : α) : RState α → List (Cmd α) → RState α × List (Option Err)
+def run (floor : α → Int) : RState α → List (Cmd α) → RState α × List (Option Err)
   | s, [] => (s, [])
   | s, c :: rest =>
-    let r := step floor wr s c
-    let r' := run floor wr r.1 rest
+    let r := step floor s c
+    let r' := run floor r.1 rest
     (r'.1, r.2 :: r'.2)
 
 def firstErr : List (Option Err) → Option Err
@@ -210,7 +222,7 @@ inductive SumRes (α : Type)
   | ok (s : RState α)
 
 /-- `summarize(collection, af_algos, aggregates, resolution, margin)`: feature names and operator names after
-    `listify`; the calls on the new raster are those of `run`, the first exception ends the call -/
+    `listify`; `wr` is the module constant `NO_DATA_VALUE`, the default `novalue` of the raster it builds; the calls on the new raster are those of `run`, the first exception ends the call -/
 def summarizeS (floor ceil : α → Int) (wr : α) (tracks : List (Trk α)) (afs ops : List String) (rx ry margin : α)
     (afOrder : List String) : SumRes α :=
   if afs.length = 0 then .raised .name
@@ -223,7 +235,7 @@ def summarizeS (floor ceil : α → Int) (wr : α) (tracks : List (Trk α)) (afs
     | some bx0, some bx1, some by0, some by1 =>
       let g := mkGrid ceil bx0 bx1 by0 by1 rx ry margin
       let cmds : List (Cmd α) := (afs.zip ops).map (fun p => Cmd.band [p.1, p.2] none) ++ [Cmd.add afOrder tracks, Cmd.compute]
-      let r := run floor wr (initState g wr) cmds
+      let r := run floor (initState g (some wr)) cmds
       match firstErr r.2 with
       | some e => .raised e
       | none => .ok r.1
